@@ -33,13 +33,20 @@ def state_writes(evs):
 def first_arm(evs):
     """which state the poll found the future in: the first `match self.state` edge, or `state.is_done()` / `is_waiting()`
     answering true"""
+    no = set()
     for e in evs:
         if e.name == 'BR' and e.data['label'] == 'fstate':
             return e.data['outcome']
-        if e.name == 'BR' and e.data['label'] == 'fs_done' and e.data['outcome'] == 'T':
-            return 'Done'
-        if e.name == 'BR' and e.data['label'] == 'fs_waiting' and e.data['outcome'] == 'T':
-            return 'Waiting'
+        if e.name == 'BR' and e.data['label'] == 'fs_done':
+            if e.data['outcome'] == 'T':
+                return 'Done'
+            no.add('Done')
+        if e.name == 'BR' and e.data['label'] == 'fs_waiting':
+            if e.data['outcome'] == 'T':
+                return 'Waiting'
+            no.add('Waiting')
+        if no == {'Done', 'Waiting'}:
+            return 'Zero'
     return None
 
 
@@ -493,7 +500,10 @@ def f8(ctx):
             if r is not None and r[0] == 'call' and r[2] in ('std::cmp::PartialEq::eq',) and len(r[3]) == 2:
                 a, c = r[3]
                 for x, y in ((a, c), (c, a)):
-                    if x == ('param', 1) and y[0] in ('ref', 'rawptr') and len(y) > 2 and y[2] is not None and y[2][0] == 'agg' and y[2][2] == var:
+                    xs = x
+                    if x[0] in ('ref', 'rawptr') and len(x) > 2 and x[2] == ('param', 1):
+                        xs = ('param', 1)  # `fn is_waiting(self)` by value: compares &self
+                    if xs == ('param', 1) and y[0] in ('ref', 'rawptr') and len(y) > 2 and y[2] is not None and y[2][0] == 'agg' and y[2][2] == var:
                         ok = True
             if r is not None and r[0] == 'bin' and r[1] == 'Eq':
                 ok = contains(r, ('param', 1)) and any(isinstance(x, tuple) and x[0] == 'agg' and x[2] == var for x in (r[2], r[3]))
